@@ -176,6 +176,9 @@ pub struct HsCfg {
     pub extra_psk: bool,
     /// `NoiseParams.name` replaced by this free-form string on both sides (the choices stay those of `name()`)
     pub alias: Option<String>,
+    /// `NoiseParams.handshake.modifiers.list` replaced after parsing by this hand-built list (same modifiers as the
+    /// name's, possibly in another order): the tokens come from the list, the hashed name stays the name
+    pub hand_mods: Option<String>,
     pub seed: u64,
 }
 
@@ -361,7 +364,7 @@ pub fn run_hs(cfg: &HsCfg, sc: &mut Sc) -> HsTrace {
         }
         v
     };
-    let spec_i = BuildSpec { alias: cfg.alias.clone(),
+    let spec_i = BuildSpec { alias: cfg.alias.clone(), mods: cfg.hand_mods.clone(),
         name: name.clone(),
         initiator: true,
         resolver: cfg.res_i.clone(),
@@ -372,7 +375,7 @@ pub fn run_hs(cfg: &HsCfg, sc: &mut Sc) -> HsTrace {
         prologue: cfg.prologue.clone(),
         rng: keys.rng_i.clone(),
     };
-    let spec_r = BuildSpec { alias: cfg.alias.clone(),
+    let spec_r = BuildSpec { alias: cfg.alias.clone(), mods: cfg.hand_mods.clone(),
         name: name.clone(),
         initiator: false,
         resolver: cfg.res_r.clone(),
